@@ -88,6 +88,15 @@ def _t_between_args(v, lo, hi):
     return isinstance(v, (int, float)) and not isinstance(v, bool) and isinstance(lo, (int, float)) and lo <= v < hi
 
 
+def _t_within(v, spec):
+    """A range when given a tuple (lo, hi), an enumeration when given a list: the argument's TYPE matters."""
+    if not isinstance(v, (int, float)) or isinstance(v, bool):
+        return False
+    if isinstance(spec, tuple):
+        return spec[0] <= v <= spec[1]
+    return v in spec
+
+
 def _make_above(limit):
     def above(v):  # every closure made here shares module and qualified name
         return isinstance(v, (int, float)) and not isinstance(v, bool) and v > limit
@@ -113,6 +122,7 @@ TESTS = {
     "gt_arg": _t_gt_arg,
     "startswith_arg": _t_startswith_arg,
     "between_args": _t_between_args,
+    "within": _t_within,
     "above_0": _ABOVE_0,
     "above_1": _ABOVE_1,
     "lam_a": _LAM_A,
@@ -204,6 +214,12 @@ def is_time_rhs(rhs):
 def rhs_real(rhs):
     if is_time_rhs(rhs):
         return from_us(rhs[1], rhs[2])
+    if isinstance(rhs, tuple) and rhs and rhs[0] == "LIST":
+        return list(rhs[1:])  # a list argument (ASTs themselves hold tuples only)
+    if isinstance(rhs, tuple) and rhs and rhs[0] == "TUPLE":
+        return tuple(rhs[1:])
+    if isinstance(rhs, tuple) and rhs and rhs[0] == "SET":
+        return set(rhs[1:])
     if isinstance(rhs, tuple) and len(rhs) == 2 and rhs[0] == "NAIVE":
         # a naive comparison value (legal to construct; only used where no model answer is needed, i.e. C17)
         return from_us(rhs[1]).replace(tzinfo=None)
